@@ -5,7 +5,7 @@
    Proofs: Proofs/Glue_*.v.  No property file depends on this file; the property files carry one bridge
    theorem each (C03, C10, C15, C16, C17, C18, C19). *)
 From PV Require Import Lib.Base.
-From PV Require Proofs.Glue_certs Proofs.Glue_enc_certs Proofs.Glue_xsw.
+From PV Require Proofs.Glue_certs Proofs.Glue_enc_certs Proofs.Glue_xsw Proofs.Glue_quote.
 Open Scope N_scope.
 
 (* ====================================================================================================
@@ -265,3 +265,78 @@ Theorem Glue_md_precheck_char :
 Proof. exact md_precheck_char. Qed.
 Print Assumptions Glue_md_precheck_char.
 End G2.
+
+(* ====================================================================================================
+   3. percent-encoding: Model/Codec.v (C14) vs Model/Redirect.v (C15) vs Model/Ident.v (C18) vs Model/Cache.v (C19).
+      [quote_x plus exc]: Codec.quote_byte except where exc names another spelling; one round-trip theorem. *)
+Module G3.
+Import Codec Base64_lemmas Glue_quote.
+
+Theorem Glue_quote_round_trip_single_source :
+  forall plus exc bs, exc_ok plus exc -> Forall byte bs -> unquote_gen plus (quote_x plus exc bs) = bs.
+Proof. exact unquote_quote_x. Qed.
+Print Assumptions Glue_quote_round_trip_single_source.
+
+Theorem Glue_quote_injective_single_source :
+  forall plus exc a b, exc_ok plus exc -> Forall byte a -> Forall byte b -> quote_x plus exc a = quote_x plus exc b -> a = b.
+Proof. exact quote_x_injective. Qed.
+Print Assumptions Glue_quote_injective_single_source.
+
+(* the four copies are instances of it (exceptions: none / tilde -> %7E when the flag is off / slash kept) *)
+Theorem Glue_quote_copies_are_instances :
+  forall bs,
+    (quote bs = quote_x false exc_none bs /\ quote_plus bs = quote_x true exc_none bs) /\
+    (forall ts, RD.quote_plus_g ts bs = quote_x true (exc_tilde ts) bs) /\
+    ID.quote_s bs = quote_x false exc_slash bs /\
+    CA.quote_id bs = quote_x false exc_slash bs /\
+    (forall plus, exc_ok plus exc_none) /\ (forall plus ts, exc_ok plus (exc_tilde ts)) /\ (forall plus, exc_ok plus exc_slash).
+Proof.
+  intros bs. split; [exact (codec_quote_is_x bs)|]. split; [intros ts; exact (redirect_quote_is_x ts bs)|].
+  split; [exact (ident_quote_is_x bs)|]. split; [exact (cache_quote_is_x bs)|].
+  split; [exact exc_none_ok|]. split; [exact exc_tilde_ok|exact exc_slash_ok].
+Qed.
+Print Assumptions Glue_quote_copies_are_instances.
+
+(* equal, or equal up to the documented exception character *)
+Theorem Glue_quote_copies_equal :
+  forall bs,
+    ID.quote_s bs = CA.quote_id bs /\
+    (forallb (fun c => negb (c =? 47)) bs = true -> ID.quote_s bs = quote bs) /\
+    (forall ts, ts = true \/ forallb (fun c => negb (c =? 126)) bs = true -> RD.quote_plus_g ts bs = quote_plus bs).
+Proof.
+  intros bs. split; [exact (ident_cache_quote_same bs)|]. split; [exact (quote_s_is_codec_quote bs)|].
+  intros ts. exact (quote_plus_g_is_codec_quote_plus ts bs).
+Qed.
+Print Assumptions Glue_quote_copies_equal.
+
+Theorem Glue_urlencode_g_is_urlencode :
+  forall ts ps, ts = true \/ Forall Redirect_lemmas.no_tilde_pair ps -> RD.urlencode_g ts ps = urlencode ps.
+Proof. exact urlencode_g_is_codec_urlencode. Qed.
+Print Assumptions Glue_urlencode_g_is_urlencode.
+
+Theorem Glue_all_quote_round_trips :
+  forall bs, Forall byte bs ->
+    unquote (quote bs) = bs /\ unquote_plus (quote_plus bs) = bs /\
+    (forall ts, unquote_plus (RD.quote_plus_g ts bs) = bs) /\
+    unquote (ID.quote_s bs) = bs /\ unquote (CA.quote_id bs) = bs.
+Proof. exact all_quote_round_trips. Qed.
+Print Assumptions Glue_all_quote_round_trips.
+
+(* ident.code in C18's and in C19's model: one function (toC: absent / empty attribute = empty string) *)
+Theorem Glue_ident_code_same : forall n, CA.code (toC n) = ID.code n.
+Proof. exact code_same. Qed.
+Print Assumptions Glue_ident_code_same.
+
+(* ident.decode: the two models agree on every code (byte strings in the attributes) ... *)
+Theorem Glue_ident_decode_same_on_codes :
+  forall n, IDL.wfb n -> exists m, ID.decode (ID.code n) = Ok m /\ CA.decode (ID.code n) = Ok (toC m).
+Proof. exact decode_same_on_codes. Qed.
+Print Assumptions Glue_ident_decode_same_on_codes.
+
+(* ... and DISAGREE off the image of code(): the library follows Model/Ident.v (int("-1"), int("04") are indexes) *)
+Theorem Glue_ident_decode_disagreement_witness :
+  ID.decode (s2l "-1=a") = Ok (ID.nid_t (s2l "a")) /\ CA.decode (s2l "-1=a") = Ok CA.no_nid /\
+  ID.decode (s2l "04=a") = Ok (ID.nid_t (s2l "a")) /\ CA.decode (s2l "04=a") = Ok CA.no_nid.
+Proof. exact decode_disagreement_witness. Qed.
+Print Assumptions Glue_ident_decode_disagreement_witness.
+End G3.
